@@ -172,7 +172,7 @@ Qed.
 Theorem sync_fork_catches_up s :
   sy_node s = n0 -> sy_queue s = [] -> sy_buf s = [] ->
   (sy_diff s < top_cd peer \/ (sy_diff s = top_cd peer /\ sy_height s = top_h peer)) ->
-  exists bound, forall now, (forall b, In b (shared ++ theirs) -> prevalidate_block cfg team_key b now = Ok tt) ->
+  exists bound, forall now, (forall b, In b (tl (shared ++ theirs)) -> prevalidate_block cfg team_key b now = Ok tt) ->
     (forall k, (bound <= k)%nat ->
        let s' := srounds cfg genesis_addr team_key peer now k s in
        sy_node s' = apply_ext' n0 theirs /\
